@@ -685,7 +685,26 @@ func mkBVResize(a *Term, w uint, signed bool) *Term {
 
 // ---------- String ----------
 
+// fixedLenOf: variables named "...!L<n>" have exactly n bytes (fresh random
+// values of known size); the solver layer asserts it at declaration.
+func fixedLenOf(name string) (int64, bool) {
+	i := strings.LastIndex(name, "!L")
+	if i < 0 {
+		return 0, false
+	}
+	var n int64
+	if _, err := fmt.Sscanf(name[i+2:], "%d", &n); err != nil || fmt.Sprint(n) != name[i+2:] {
+		return 0, false
+	}
+	return n, true
+}
+
 func mkLen(s *Term) *Term {
+	if s.op == "var" {
+		if n, ok := fixedLenOf(s.name); ok {
+			return mkInt(n)
+		}
+	}
 	switch s.op {
 	case "str":
 		return mkInt(int64(len(s.sval)))
